@@ -65,10 +65,22 @@ theorem go_escShlex (a : Str) (rest acc : Str) (args : List Str) :
         simp [escShlex, go, ih]
       · simp [escShlex, go, hq, hs, ih]
 
+/-- backslash-escaped characters outside quotes lose their backslash -/
+theorem go_escBs (a : Str) (h : a.all isEscapable = true) (rest acc : Str) (args : List Str) :
+    go (escBs a ++ rest) false false false acc args = go rest false false false (acc ++ a) args := by
+  induction a generalizing acc with
+  | nil => simp [escBs]
+  | cons c a ih =>
+    simp only [List.all_cons, Bool.and_eq_true] at h
+    have := ih h.2 (acc ++ [c])
+    simp [escBs, go, h.1, this]
+
 /-- one argument in any style, started outside quotes, is appended to the accumulator -/
-theorem go_quoteArg (sty : Style) (a : Str) (h : sty = .bare → bareOk a = true) (rest acc : Str) (args : List Str) :
+theorem go_quoteArg (sty : Style) (a : Str) (h : sty = .bare → bareOk a = true)
+    (he : sty = .esc → a.all isEscapable = true) (rest acc : Str) (args : List Str) :
     go (quoteArg sty a ++ rest) false false false acc args = go rest false false false (acc ++ a) args := by
   cases sty with
+  | esc => exact go_escBs a (he rfl) rest acc args
   | bare => exact go_bare a (h rfl) rest acc args
   | dq =>
     have := go_escDq a ('"' :: rest) acc args
@@ -89,6 +101,36 @@ theorem go_blanks (n : Nat) (rest : Str) (args : List Str) :
     simp only [blanks, List.replicate_succ, List.cons_append] at ih ⊢
     simp [go, flush, ih]
 
+theorem argOk_iff {sty : Style} {pad : Nat} {a : Str} : argOk (sty, pad, a) = true ↔
+    a ≠ [] ∧ (sty = .bare → bareOk a = true) ∧ (sty = .esc → a.all isEscapable = true) := by
+  simp only [argOk, Bool.and_eq_true, Bool.not_eq_true', Bool.or_eq_true, bne_iff_ne, ne_eq, List.isEmpty_eq_false_iff]
+  constructor
+  · rintro ⟨⟨h1, h2⟩, h3⟩
+    exact ⟨h1, fun hs => h2.resolve_left (fun hn => hn hs), fun hs => h3.resolve_left (fun hn => hn hs)⟩
+  · rintro ⟨h1, h2, h3⟩
+    refine ⟨⟨h1, ?_⟩, ?_⟩
+    · by_cases hs : sty = .bare
+      · exact Or.inr (h2 hs)
+      · exact Or.inl hs
+    · by_cases hs : sty = .esc
+      · exact Or.inr (h3 hs)
+      · exact Or.inl hs
+
+theorem segOk_iff {sty : Style} {a : Str} : segOk (sty, a) = true ↔
+    (sty = .bare → bareOk a = true) ∧ (sty = .esc → a.all isEscapable = true) := by
+  simp only [segOk, Bool.and_eq_true, Bool.or_eq_true, bne_iff_ne, ne_eq]
+  constructor
+  · rintro ⟨h2, h3⟩
+    exact ⟨fun hs => h2.resolve_left (fun hn => hn hs), fun hs => h3.resolve_left (fun hn => hn hs)⟩
+  · rintro ⟨h2, h3⟩
+    refine ⟨?_, ?_⟩
+    · by_cases hs : sty = .bare
+      · exact Or.inr (h2 hs)
+      · exact Or.inl hs
+    · by_cases hs : sty = .esc
+      · exact Or.inr (h3 hs)
+      · exact Or.inl hs
+
 theorem go_quoteTail (l : List (Style × Nat × Str)) (h : ∀ x ∈ l, argOk x = true)
     (acc : Str) (hacc : acc ≠ []) (args : List Str) :
     go (quote.quoteTail l) false false false acc args = .ok (args ++ acc :: l.map (·.2.2)) := by
@@ -96,17 +138,41 @@ theorem go_quoteTail (l : List (Style × Nat × Str)) (h : ∀ x ∈ l, argOk x 
   | nil => simp [quote.quoteTail, go, flush, hacc]
   | cons x r ih =>
     obtain ⟨sty, pad, a⟩ := x
-    have hx := h (sty, pad, a) (by simp)
-    simp only [argOk, Bool.and_eq_true, Bool.not_eq_true', Bool.or_eq_true, bne_iff_ne, ne_eq, List.isEmpty_eq_false_iff] at hx
-    have hb : sty = .bare → bareOk a = true := by
-      intro hs; rcases hx.2 with h1 | h1
-      · exact absurd hs h1
-      · exact h1
+    obtain ⟨hne, hb, he⟩ := argOk_iff.mp (h (sty, pad, a) (by simp))
     have hr : ∀ x ∈ r, argOk x = true := fun x hx' => h x (by simp [hx'])
     simp only [quote.quoteTail]
     rw [go]
     simp only [if_true, Bool.or_self, Bool.false_eq_true, if_false]
-    rw [go_blanks, go_quoteArg sty a hb, ih hr ([] ++ a) (by simpa using hx.1)]
+    rw [go_blanks, go_quoteArg sty a hb he, ih hr ([] ++ a) (by simpa using hne)]
+    simp [flush, hacc]
+
+/-- a sequence of pieces, started outside quotes, appends the text it stands for -/
+theorem go_quoteSegs (segs : List (Style × Str)) (h : ∀ x ∈ segs, segOk x = true) (rest acc : Str) (args : List Str) :
+    go (quoteSegs segs ++ rest) false false false acc args = go rest false false false (acc ++ segText segs) args := by
+  induction segs generalizing acc with
+  | nil => simp [quoteSegs, segText]
+  | cons x r ih =>
+    obtain ⟨sty, a⟩ := x
+    obtain ⟨hb, he⟩ := segOk_iff.mp (h (sty, a) (by simp))
+    have hr : ∀ x ∈ r, segOk x = true := fun x hx' => h x (by simp [hx'])
+    simp only [quoteSegs, segText, List.append_assoc]
+    rw [go_quoteArg sty a hb he, ih hr]
+    simp
+
+theorem go_cmdTail (l : List (Nat × List (Style × Str))) (h : ∀ x ∈ l, segsOk x = true)
+    (acc : Str) (hacc : acc ≠ []) (args : List Str) :
+    go (quoteCmd.cmdTail l) false false false acc args = .ok (args ++ acc :: l.map (fun x => segText x.2)) := by
+  induction l generalizing acc args with
+  | nil => simp [quoteCmd.cmdTail, go, flush, hacc]
+  | cons x r ih =>
+    obtain ⟨pad, segs⟩ := x
+    have hx := h (pad, segs) (by simp)
+    simp only [segsOk, Bool.and_eq_true, Bool.not_eq_true', List.isEmpty_eq_false_iff, List.all_eq_true] at hx
+    have hr : ∀ x ∈ r, segsOk x = true := fun x hx' => h x (by simp [hx'])
+    simp only [quoteCmd.cmdTail]
+    rw [go]
+    simp only [if_true, Bool.or_self, Bool.false_eq_true, if_false]
+    rw [go_blanks, go_quoteSegs segs hx.2, ih hr ([] ++ segText segs) (by simpa using hx.1)]
     simp [flush, hacc]
 
 end Cppcheck.Shell
